@@ -24,7 +24,7 @@ import c12_eps as E
 from c12_util import LAYOUT_CODE, LAYOUTS, is_store_path, poison_returned, returned_arrays, walk
 
 CONFIG = {
-    "cone": ["Base/ListUtil.v", "Model/Store.v", "Proofs/StoreProofs.v", "Model/Alias.v", "Proofs/AliasSound.v", "Proofs/AliasEnumA.v",
+    "cone": ["Base/ListUtil.v", "Model/Store.v", "Proofs/StoreProofs.v", "Model/Alias.v", "Proofs/AliasSound.v", "Proofs/AliasOut.v", "Proofs/AliasEnumA.v",
              "Proofs/AliasEnumB.v", "Proofs/AliasEnumC.v", "Proofs/AliasEnumD.v", "Proofs/AliasProofs.v", "Properties/C12.v"],
     "coqchk_budget": 2400,   # the vm_compute enumerations of Proofs/AliasEnum*.v take coqchk about 28 minutes
     "trusted": [
@@ -185,6 +185,11 @@ def oracle(case, obsA=None, digA=None, attribute=True):
     if digA is not None and digC is not None and digC["stored"] != digA["stored"]:
         out.append({"effect": "rw_store", "arg": None, "text": "writing into the returned object changed stored contents (%s)" %
                     first_diff({"stored": digA["stored"]}, {"stored": digC["stored"]})})
+    elif (digA is not None and digC is not None and digC.get("extra") != digA.get("extra") and case["ep"] != "Emitter.ask"):
+        # what the property lists as handed out by stores / archives (best_elite among them) must be detached from EVERYTHING the object
+        # keeps (C12_outputs_detached_from_self), not only from the store's buffers; emitters' ask results are not in that list
+        out.append({"effect": "rw_self", "arg": None, "text": "writing into the returned object changed what the object reports afterwards (%s)" %
+                    first_diff({"extra": digA["extra"]}, {"extra": digC["extra"]})})
     return out
 
 
@@ -226,6 +231,8 @@ def classify(case, ctx_ep, f):
         return "sliding-buffer-retains-caller"
     if ctx_ep == "Emitter.ask" and eff in ("rw_self", "unstable", "rw_store"):
         return "ask-returns-live-view"
+    if eff == "rw_self" and ctx_ep == "Archive.best_elite":
+        return "best-elite-live-record"
     if eff in ("rw_store", "unstable") and ctx_ep in ("Store.iter", "Archive.iter"):
         return "iter-writable-view"
     if eff == "mut" and ctx_ep == "viz.parallel_axes_plot":
